@@ -163,7 +163,6 @@ def _elu_jvp_rule(
     primals: tuple[ArrayLike, ...], tangents: tuple[ArrayLike, ...], **params: object
 ) -> tuple[ArrayLike, ArrayLike]:
     alpha_param = params.get("alpha", 1.0)
-    alpha = float(alpha_param) if isinstance(alpha_param, (int, float)) else 1.0
 
     (x,) = primals
     (x_dot,) = tangents
@@ -171,7 +170,8 @@ def _elu_jvp_rule(
 
     zero = jnp.asarray(0.0, dtype=x.dtype)
     one = jnp.asarray(1.0, dtype=x.dtype)
-    alpha_x = jnp.asarray(alpha, dtype=x.dtype)
+    # Python number, NumPy scalar or 0-d array alike (not only int/float).
+    alpha_x = jnp.reshape(jnp.asarray(alpha_param, dtype=x.dtype), ())
 
     exp_x = jax.lax.exp(x)
     neg_branch = jax.lax.mul(alpha_x, jax.lax.sub(exp_x, one))
